@@ -16,6 +16,9 @@ def scenario(args):
     nj, seed, jitter, stagger_ms, loss, kindmix = args
     rng = random.Random(seed)
     ids = rng.sample(range(1, 256), nj)
+    small = seed % 3 == 0 and nj <= 12
+    if small:     # IDs that are numerically equal to logical addresses the mesh hands out (0o1..0o5, 0o11.., 0o21..)
+        ids = rng.sample([1, 2, 3, 4, 5, 9, 10, 11, 12, 13, 17, 18, 19, 20, 21, 25, 33, 41], nj)
     nodes = [dict(addr=0, kind="master", node_id=0)]
     for i in ids:
         nodes.append(dict(addr=0o4444, kind="mesh" if (kindmix and rng.random() < 0.5) else "meshnm", node_id=i))
@@ -52,6 +55,9 @@ def scenario(args):
         jobs.append(net.job_mesh(nm, "lookup_address", lambda o: o.lookup_address(0), arg=0))
         jobs.append(net.job_mesh(nm, "lookup_node_id", lambda o: o.lookup_node_id(o.node_address), arg=-1))
         jobs.append(net.job_mesh(nm, "lookup_node_id", lambda o: o.lookup_node_id(0o5555), arg=0o5555))
+        if small:
+            for a in rng.sample([1, 2, 3, 4, 5], 3) + [rng.choice(ids)]:      # an address, and an ID used as if it were one
+                jobs.append(net.job_mesh(nm, "lookup_node_id", lambda o, a=a: o.lookup_node_id(a), arg=a))
         jobs.append(net.job_mesh(nm, "lookup_node_id", lambda o: o.lookup_node_id(None), arg=-999))
         jobs.append(net.job_mesh(nm, "lookup_node_id", lambda o: o.lookup_node_id(0), arg=0))
         jobs.append(net.job_mesh(nm, "check_connection", lambda o: o.check_connection(), budget_ms=8000))
